@@ -225,6 +225,11 @@ def run_job(job):
                         kf = 'KF-C03-table-delimiter-cell-count'
                     elif leafspell.lazy_line_reinterpreted(case):
                         kf = 'KF-C03-lazy-line-reinterpreted'
+                    elif (ctx == 'in-list-item' and case[0] == 'indented' and any(l and not l.strip(' ') for l in case[1])
+                          and normalize_html(got) == normalize_html(leafspell.in_context(leafspell.blank_lines_emptied(case), ctx)[1])):
+                        # class: indented code with a white-space-only line, inside a list item; symptom: exactly the HTML of the same
+                        # case with those lines emptied
+                        kf = 'KF-C03-whitespace-only-line-in-list-item'
                     r.fail(dict(markdown=md, expected_html=want, family=case[0], context=ctx, kf=kf), 'leaf-spelling-html-differs:' + case[0], kf=kf,
                            expected=want, observed=got)
             r.outcome('leaf:' + case[0])
